@@ -598,7 +598,7 @@ func CheckC08(c *C08Case, st *Stats) error {
 
 func init() {
 	Register("C08",
-		"trees (depth >= 2 favoured; chains up to 70 levels; one case in 400 also clones a chain of 10001-10200 containers grown top-down, one in six a host holding NewListOf(container, 2-4) after a Pop / Delete / Replace on that list; built through drawn construction routes; one in five turned into a DAG by storing one reachable container a second time; one in five with nested containers that are user-defined derived types) are cloned; then 1-12 mutations are applied at a drawn container of a drawn side (original or clone): Add, Insert, Replace, Delete, Pop, Clear, Reverse, Sort (in domain), Set, Unset, Clear, and SetTF/UnsetTF from the root with well-formed paths. Oracle: clone.Equals(orig) both ways; snapshot content equal; the sets of container identities reachable from the two roots are disjoint; Clone leaves the receiver unchanged; after every mutation the OTHER side's snapshot (content bits and identities) equals its snapshot before the mutation. Non-trivial = tree with a nested container at depth >= 2 and at least one applied mutation on a non-root container. Distinct = distinct FNV-64a hash of the case JSON.",
+		"trees (depth >= 2 favoured; chains up to 70 levels; one case in 400 also clones a chain of 10001-10200 containers grown top-down, one in six a host holding NewListOf(container, 2-4) after a Pop / Delete / Replace on that list; built through drawn construction routes; one in five turned into a DAG by storing one reachable container a second time; one in five with nested containers that are user-defined derived types) are cloned; then 1-12 mutations are applied at a drawn container of a drawn side (original or clone): Add, Insert, Replace, Delete, Pop, Clear, Reverse, Sort (in domain), Set, Unset, Clear, and SetTF/UnsetTF from the root with well-formed paths. Oracle: clone.Equals(orig) both ways; snapshot content equal; the sets of container identities reachable from the two roots are disjoint; Clone leaves the receiver unchanged; after every mutation the OTHER side's snapshot (content bits and identities) equals its snapshot before the mutation. Non-trivial = tree with a nested container at depth >= 2 and at least one applied mutation on a non-root container. Distinct = distinct FNV-64a hash of the case JSON. A clone of the clone is taken at once: it equals the original, shares nothing with original or clone, and is unchanged after the whole mutation history of the other two.",
 		GenC08, CheckC08)
 }
 
